@@ -455,6 +455,9 @@ pub const SEEDS: &[&[u8]] = &[
     b"p satex 4\n+(*(1 2) =(3 xor(1 4)))\n",
     b"nnf 15 17 4\nL -3\nL -2\nL 1\nA 3 2 1 0\nL 3\nO 3 2 4 3\nL -4\nA 2 6 5\nL 4\nA 2 2 8\nL 2\nA 2 1 10\nL -1\nA 2 12 4\nO 1 2 13 11\nA 2 14 9\nO 4 2 15 7\n",
     b"c o 1 2 3 4\nnnf 1 0 4\nL 1\n",
+    b"c vo [[1, 3], 2]\nc 1 a\nc 2 b\np cnf 3 2\n1 -2 0\n2 3 -1 0\n",
+    b"c vo [2, [1]]\nnnf 4 3 2\nL 1\nL -2\nA 2 0 1\nO 0 2 2 0\n",
+    b"c vo [1]\np cnf 1 1\n1 0\n",
 ];
 
 #[derive(Clone, Debug)]
@@ -924,6 +927,7 @@ pub fn run(cfg: &Cfg) -> i32 {
             rep.emit(w);
         }));
     }
+    crate::fzrun::add_jobs(cfg, "C18", &mut jobs, &mut names);
     let outs = run_jobs(&mut jobs, cfg.par, cfg.t(900, 7200));
     drop(jobs);
     let mut total = Report::default();
@@ -933,7 +937,7 @@ pub fn run(cfg: &Cfg) -> i32 {
         &total,
         Meta {
             level: "exploration",
-            rule: "Circuit::simplify: exhaustive circuits (1 input/1 gate/<=3 literals; 2 inputs/2 gates/<=2 literals; 1 input/3 gates) over gate kinds {and,or,xor} and literals {F, T, +-inputs, +-gates incl. self/forward references (cycles), the first non-existent input number, the one after it, UNDEF}, with 'all gates + constant' and 'last gate' as root sets; random circuits up to 8 inputs and 30 gates. Oracle: direct evaluation over all input assignments with cycle detection. simplify must return Err(l) only if l is a reachable cycle gate or a reachable unknown input, must report every reachable cycle, may return Ok in the presence of unknown inputs only if no reachable gate's value depends on them (evaluated under all values of the unknown inputs) and the new circuit does not mention them; on Ok every reachable gate's image is equivalent on all assignments, the five normal-form conditions hold for every new gate, the new circuit is topologically sorted and unreachable gates map to UNDEF. Parsers (DIMACS cnf/sat, AIGER ascii/binary, NNF): seeded structured mutations (bit flips, inserts, deletions, truncation, number replacement by boundary values, duplication) of 15 valid files + raw bytes, and every truncation point of every seed file, under 8 option combinations, in forked children with a 3 GiB address-space limit: any panic, abort or OOM is a violation; generated valid AIGER problems written in ASCII and binary form must parse to equal Problems. Non-trivial = circuit where a gate collapses to a constant/literal and is used by another gate or a gate has duplicate/complementary inputs; mutated input accepted by some parser; AIGER pair accepted in both encodings.",
+            rule: "Circuit::simplify: exhaustive circuits (1 input/1 gate/<=3 literals; 2 inputs/2 gates/<=2 literals; 1 input/3 gates) over gate kinds {and,or,xor} and literals {F, T, +-inputs, +-gates incl. self/forward references (cycles), the first non-existent input number, the one after it, UNDEF}, with 'all gates + constant' and 'last gate' as root sets; random circuits up to 8 inputs and 30 gates. Oracle: direct evaluation over all input assignments with cycle detection. simplify must return Err(l) only if l is a reachable cycle gate or a reachable unknown input, must report every reachable cycle, may return Ok in the presence of unknown inputs only if no reachable gate's value depends on them (evaluated under all values of the unknown inputs) and the new circuit does not mention them; on Ok every reachable gate's image is equivalent on all assignments, the five normal-form conditions hold for every new gate, the new circuit is topologically sorted and unreachable gates map to UNDEF. Parsers (DIMACS cnf/sat, AIGER ascii/binary, NNF): seeded structured mutations (bit flips, inserts, deletions, truncation, number replacement by boundary values, duplication) of 15 valid files + raw bytes, and every truncation point of every seed file, under 8 option combinations, in forked children with a 3 GiB address-space limit: any panic, abort or OOM is a violation; generated valid AIGER problems written in ASCII and binary form must parse to equal Problems. Non-trivial = circuit where a gate collapses to a constant/literal and is used by another gate or a gate has duplicate/complementary inputs; mutated input accepted by some parser; AIGER pair accepted in both encodings. COVERAGE-GUIDED FUZZING: the libFuzzer targets of this property (harness/fuzz, entry points and decoders in fz.rs, the same oracle as above, built with AddressSanitizer, debug assertions and overflow checks) - quick tier: every committed seed and regression input is replayed through the in-process entry point; thorough tier: 3 libFuzzer campaigns per target with -runs=N -seed=f(VERIF_SEED) on fresh corpora initialised from the seeds (evaluations = executions, non-trivial = inputs kept for new coverage).",
             assumptions: vec!["gate references are always < number of gates (references to non-existent gates are outside the documented domain)".into(), "release profile; the libFuzzer targets (debug assertions on) complement this for the parsers".into()],
             extra: json!({}),
         },
